@@ -129,12 +129,17 @@ pub fn c03(kind: Kind, obs: &[u8], rt: &RefTable, f10_known: bool) -> Verdict {
     Verdict::Held
 }
 
-/// Byte positions excluded from the C04 comparison: checksum bytes (C01's business).
-fn masked(kind: Kind, i: usize) -> bool {
+/// Byte positions excluded from the C04 comparison: checksum bytes (C01's business) and the
+/// table-level revision/version numbers, which are the crate's free choice of which edition of the
+/// table it claims to implement (the property pins the revisions of *sub-structures*, which are
+/// compared).
+pub fn masked(kind: Kind, i: usize) -> bool {
     match kind {
         Kind::Rsdp => i == 8 || i == 32,
-        Kind::Facs => false,
-        _ => i == 9,
+        Kind::Facs => i == 32,
+        Kind::Fadt => i == 9 || i == 8 || i == 131,
+        Kind::Sdt => i == 9,
+        _ => i == 9 || i == 8,
     }
 }
 
